@@ -14,6 +14,17 @@ def ident(rng, first_ok=True):
     return s
 
 
+def maybe_long(rng, s, p=0.03):
+    """now and then an identifier of 127..1000 bytes (deeply nested / generated / mangled names): block sizes of readers show at 128, 256, ..."""
+    if rng.random() >= p:
+        return s
+    target = rng.choice([126, 127, 128, 129, 130, 255, 256, 257, 300, 384, 385, 1000])
+    fill = rng.choice(["x", "longname", "é", "pkg0"])
+    while len(s.encode("utf-8", "surrogatepass")) < target:
+        s += fill
+    return s
+
+
 def class_desc(rng, depth=None):
     depth = rng.choice([0, 1, 1, 2, 3, 4]) if depth is None else depth
     segs = [ident(rng) for _ in range(depth)] + [ident(rng)]
@@ -63,6 +74,7 @@ def gen_model(rng, nclasses=None, share_names=True, with_code=True, max_members=
     names = []
     while len(names) < n:
         d = class_desc(rng)
+        d = maybe_long(rng, d[:-1]) + ";"
         if d not in names and d not in EXTERNAL:
             names.append(d)
     name_pool = [ident(rng) for _ in range(4)]  # member names shared across classes
@@ -76,11 +88,11 @@ def gen_model(rng, nclasses=None, share_names=True, with_code=True, max_members=
         for cand in names[:ci] + ["Ljava/lang/Runnable;", "Ljava/io/Serializable;", "Lext/I;"]:
             if rng.random() < 0.15 and cand != sup and cand not in ifs:
                 ifs.append(cand)
-        src = rng.choice([None, None, ident(rng) + ".java", "A.java"])
+        src = rng.choice([None, None, maybe_long(rng, ident(rng)) + ".java", "A.java"])
         c = m.add_class(d, acc, sup, ifs, src)
         seen_f = set()
         for _ in range(rng.randrange(0, max_members + 1)):
-            nm = rng.choice(name_pool) if (share_names and rng.random() < 0.5) else ident(rng)
+            nm = rng.choice(name_pool) if (share_names and rng.random() < 0.5) else maybe_long(rng, ident(rng), 0.02)
             ty = rand_type(rng, names)
             if (nm, ty) in seen_f:
                 continue
@@ -91,7 +103,7 @@ def gen_model(rng, nclasses=None, share_names=True, with_code=True, max_members=
             c.add_field(nm, ty, fa)
         seen_m = set()
         for _ in range(rng.randrange(0, max_members + 1)):
-            nm = rng.choice(name_pool) if (share_names and rng.random() < 0.5) else ident(rng)
+            nm = rng.choice(name_pool) if (share_names and rng.random() < 0.5) else maybe_long(rng, ident(rng), 0.02)
             ret = rand_type(rng, names, allow_void=True)
             params = tuple(rand_type(rng, names) for _ in range(rng.choice([0, 0, 1, 2, 3, 5])))
             if (nm, ret, params) in seen_m:
